@@ -198,6 +198,8 @@ def _make_problem(world):
             return r
 
         def evaluate_inequality_constraints(self, x):
+            if world.sim.tasks:
+                world.sim.yield_point('cons', 0.0)
             if w_ncons(world) == 0:
                 return []
             return world.g(x)
@@ -241,20 +243,24 @@ class _Null(io.TextIOBase):
 _NULL = _Null()
 
 
-def begin_run(D, policy=None, stall_p=None, timed=None, p_ext=0.0, keep_log=False, step_cap=None):
+def begin_run(D, policy=None, stall_p=None, timed=None, p_ext=0.0, keep_log=False, step_cap=None, line_p=None):
     """common prologue of every simulated run: fresh Sim, ids, PRNGs"""
     seams.install()
     import random
     import numpy as np
     from artap.individual import Individual
+    _gc_hygiene()
     if policy is None:
         policy = D.pick('cfg', 'policy', kernel.POLICIES)
     if stall_p is None:
         stall_p = (0.0, 0.02, 0.08)[D.weighted('cfg', 'stall', (3, 2, 1))]
     if timed is None:
         timed = bool(D.dec('cfg', 'timed', 2))
+    if line_p is None:
+        line_p = (0.0, 0.03, 0.15)[D.weighted('cfg', 'linelevel', (4, 1, 1))]
     sim = kernel.Sim(D, policy=policy, stall_p=stall_p, timed=timed, keep_log=keep_log or KEEP_LOG,
-                     step_cap=step_cap)
+                     step_cap=step_cap, line_p=line_p,
+                     trace_prefix=os.path.join(os.path.realpath(seams.repo_path()), 'artap') + os.sep)
     _reset_loggers()
     seams.set_sim(sim)
     Individual.counter = 0
@@ -262,8 +268,24 @@ def begin_run(D, policy=None, stall_p=None, timed=None, p_ext=0.0, keep_log=Fals
     random.seed(sut_seed)
     np.random.seed(sut_seed % (1 << 31))
     seams.RNG.begin(D, sut_seed, p_ext)
-    sim.ev('begin', policy, stall_p, timed, sut_seed)
+    sim.ev('begin', policy, stall_p, timed, sut_seed, line_p)
     return sim
+
+
+_runs = [0]
+
+
+def _gc_hygiene():
+    """no cyclic garbage collection while a run is in progress: the worlds of earlier runs are cyclic garbage
+    (problem <-> surrogate), artap's Problem has a Python-level __del__, and a collection that happens to fall into a
+    simulated worker would execute library lines there - measured: with statement-level pre-emption the event-log digest then
+    depended on the history of the process.  Garbage is collected between runs instead."""
+    import gc
+    if _runs[0] == 0:
+        gc.disable()
+    _runs[0] += 1
+    if _runs[0] % 20 == 0:
+        gc.collect()
 
 
 def _reset_loggers():
